@@ -13,6 +13,7 @@ from importlib import import_module
 import numpy as np
 
 from sim import pipeline as pl
+from sim import replicas as rp
 from sim import seams, workload as wl
 from sim.util import digest, exc_signature, violation
 
@@ -167,7 +168,7 @@ def model_of(msgs, n):
     model = {}
     for m in msgs:
         rows = np.flatnonzero(np.asarray(m.subset_indexes))
-        for r in m.results:
+        for r in rp.results_of(m):
             key = (m.stream_id, r.package, r.test)
             d = model.setdefault(key, {"flags": {}, "dup": set()})
             fl = pl.flags_json(r.results)
@@ -184,7 +185,7 @@ def msg_digest(m):
         [
             m.stream_id,
             np.asarray(m.subset_indexes).astype(int).tolist(),
-            [(r.package, r.test, pl.flags_json(r.results)) for r in m.results],
+            [(r.package, r.test, pl.flags_json(r.results)) for r in rp.results_of(m)],
             seams.anyarray_to_json(m.data),
             seams.anyarray_to_json(m.tinp),
             seams.anyarray_to_json(m.zinp),
@@ -226,9 +227,9 @@ def execute(scn):
         bump("all_covering_with_others")
     if any(not mk.any() for mk in masks):
         bump("empty_window_message")
-    if any(len(m.results) > 1 for m in msgs):
+    if any(len(rp.results_of(m)) > 1 for m in msgs):
         bump("multi_result_message")
-    if any(len(m.results) == 0 for m in msgs):
+    if any(len(rp.results_of(m)) == 0 for m in msgs):
         bump("failed_call_message")
     if any(m.zinp.size == 0 and mk.any() for m, mk in zip(msgs, masks)):
         bump("axis_absent")
